@@ -78,6 +78,8 @@ def run_native(po, shape, values=None, rng=None, strict=False):
     """Run the PO natively (real code under CPython). Returns (results, rejected, exception_text, S)."""
     from .api import ConcreteScenario, AssumptionFailed
     S = ConcreteScenario(values=values, shape=shape, rng=rng, strict=strict)
+    from .engine import restore_globals
+    restore_globals()
     exc = None
     try:
         po.fn(S)
